@@ -47,4 +47,9 @@ BENIGN = [
      "edits": [(SC, "            if not in_operation:\n", "            if in_operation is False:\n"), (AC, "            if not in_operation:\n", "            if in_operation is False:\n")]},
     {"id": "benign_abort_answer_in_local",
      "edits": [(ST, "        if not self.abort_if():\n            return\n", "        requested = self.abort_if()\n        if not requested:\n            return\n")]},
+    # sequentially behaviour-preserving: asks remaining() first and skips consume() when the window is full
+    # (nothing can run between the two calls; the variant with the strategy call in between is in the mutant catalogue)
+    {"id": "benign_remaining_probe_right_before_consume",
+     "edits": [(ST, "        if self.policy.budget is not None and not self.policy.budget.consume():",
+                "        if self.policy.budget is not None and (self.policy.budget.remaining() < 1 or not self.policy.budget.consume()):")]},
 ]
